@@ -31,6 +31,11 @@ func oracleC06(v *View, vd *Verdict) {
 			t     int64
 		}
 		var cl, br []*ex
+		type ackEv struct {
+			id uint16
+			t  int64
+		}
+		var brAcks, clAcks []ackEv // PUBACKs the broker sent / the gateway relayed to the client
 		endT := int64(-1) // the session stops here (shutdown at the end of the run, or an earlier death)
 		for _, e := range sv.Evs {
 			if endT >= 0 {
@@ -63,6 +68,9 @@ func oracleC06(v *View, vd *Verdict) {
 					break
 				}
 				p := e.SN
+				if p.Type == refsn.PUBACK {
+					clAcks = append(clAcks, ackEv{p.MsgID, e.T})
+				}
 				if p.Type == refsn.REGISTER {
 					// the gateway's own exchange (registration before a broker publish); its id is the broker's
 					// for QoS 1/2 and one of the gateway's choice (0xFFFF downwards) for QoS 0
@@ -80,6 +88,9 @@ func oracleC06(v *View, vd *Verdict) {
 					}
 				}
 			case EvB2G:
+				if e.MQ.Type == refmqtt.PUBACK {
+					brAcks = append(brAcks, ackEv{e.MQ.ID, e.T})
+				}
 				if e.MQ.Type == refmqtt.PUBLISH && e.MQ.QoS > 0 {
 					br = append(br, &ex{kind: fmt.Sprintf("broker-PUBLISH%d", e.MQ.QoS), id: e.MQ.ID, start: e.Idx, t: e.T})
 				}
@@ -107,6 +118,38 @@ func oracleC06(v *View, vd *Verdict) {
 				vd.Trigger = true
 				if endT-a.t >= budget && !a.done {
 					vd.Add("C06", fmt.Sprintf("C06/exchange-lost/gw:%s x earlier-finished-%s", a.kind, b.kind), "session %s: %s reused id %d of an earlier finished exchange and never completed (no acknowledgement reached the client)", sv.Name, a.kind, a.id)
+				}
+				break
+			}
+		}
+		// an exchange that supersedes an unfinished one with the same id (a retransmitted PUBLISH): the
+		// broker's PUBACK that arrives within the later exchange's own time must be relayed
+		gwD := plan.Cfg.RetryDelayMs * nsMs
+		for i, a := range cl {
+			if a.kind != "client-PUBLISH1" {
+				continue
+			}
+			for _, b := range cl[:i] {
+				if b.id != a.id || b.kind != a.kind || a.t-b.t >= gwD {
+					continue
+				}
+				for _, ba := range brAcks {
+					if ba.id != a.id || ba.t <= a.t || ba.t >= a.t+gwD-int64(300e6)-v.R.StalledNs {
+						continue
+					}
+					// was any PUBACK relayed after the later copy was consumed? (an earlier broker PUBACK
+					// may have done it already)
+					vd.Trigger = true
+					relayed := false
+					for _, ca := range clAcks {
+						if ca.id == a.id && ca.t > a.t {
+							relayed = true
+						}
+					}
+					if !relayed && endT-ba.t > int64(1e9) {
+						vd.Add("C06", "C06/exchange-lost/gw:client-PUBLISH1 x superseded-client-PUBLISH1", "session %s: PUBLISH id %d was retransmitted at %d (first copy at %d); the broker's PUBACK at %d came within the second exchange's time and was not relayed", sv.Name, a.id, a.t, b.t, ba.t)
+					}
+					break
 				}
 				break
 			}
@@ -260,6 +303,63 @@ func genC06(g *Gen, idx int) *Plan {
 		p.Peers = []PeerPlan{{Name: "p1", Ops: sg2.ops, Policy: PeerPolicy{ReuseID: int(g.Range(1, 3))}}}
 		p.Cfg.SN.MaxLatUs = g.Range(200, 3000)
 		sg = sg2
+	}
+	if p.Family == "C06-gw" && g.Bool(0.2) {
+		// "... or a superseded exchange uses the same message id": the peer retransmits its QoS 1 PUBLISH
+		// (DUP) before the gateway gave up on the first copy; the broker's PUBACK comes after the first
+		// copy's exchange has timed out but well within the second one's time
+		p.Family = "C06-gw-superseded"
+		D := cfg.RetryDelayMs
+		r := D/2 + g.Range(-200, 200)
+		p.Broker.AnswerDelayMs = D + g.Range(100, r-200)
+		p.Broker.Injects = nil
+		sg4 := &sessGen{g: g, cid: "c1"}
+		sg4.gap(5, 200)
+		sg4.add(connectPkt("c1", 60, false, true))
+		sg4.t += p.Broker.AnswerDelayMs
+		sg4.gap(400, 900)
+		pub := refsn.Pkt{Type: refsn.PUBLISH, TIT: refsn.TITShort, TopicID: refsn.ShortID("ab"), QoS: 1, MsgID: m, Data: []byte("mine1")}
+		sg4.add(pub)
+		sg4.t += r
+		pub.Dup = true
+		sg4.add(pub)
+		sg4.gap(D+r, D+r+500)
+		p.Peers = []PeerPlan{{Name: "p1", Ops: sg4.ops, Policy: PeerPolicy{NoWait: true}}}
+		sg = sg4
+	}
+	if p.Family == "C06-gw" && g.Bool(0.3) {
+		// the same collision around a sleep: the client falls asleep right after its request, the broker's
+		// exchange with the same id and then the reply to the client's request wait in the sleep buffer;
+		// after the wake-up the first copy of the broker's packet is lost, so the gateway has to retransmit it
+		p.Family = "C06-gw-sleep"
+		sg3 := &sessGen{g: g, cid: "c1"}
+		sg3.gap(5, 200)
+		sg3.add(connectPkt("c1", 60, false, true))
+		sg3.gap(1200, 1600)
+		if m >= 0xFFFE {
+			m = uint16(g.Range(1, 40))
+		}
+		q := uint8(1 + g.Intn(2))
+		sg3.add(refsn.Pkt{Type: refsn.PUBLISH, TIT: refsn.TITShort, TopicID: refsn.ShortID("ab"), QoS: q, MsgID: m, Data: []byte("mine")})
+		t1 := sg3.t
+		sg3.gap(2, 30)
+		sg3.add(refsn.Pkt{Type: refsn.DISCONNECT, HasDur: true, Duration: uint16(g.Range(5, 20))})
+		p.Broker.AnswerDelayMs = g.Range(300, 800)
+		p.Broker.Injects = []BrokerInject{{AtMs: g.Range(sg3.t+40, t1+p.Broker.AnswerDelayMs-40), Session: "p1", Force: true, Topic: "ab", Payload: []byte("theirs"), QoS: uint8(1 + g.Intn(2)), ID: m}}
+		sg3.gap(1500, 3000)
+		if g.Bool(0.6) {
+			sg3.add(connectPkt("c1", 60, false, false))
+		} else {
+			sg3.add(refsn.Pkt{Type: refsn.PINGREQ, Data: []byte("c1")})
+			sg3.gap(300, 600)
+			sg3.add(connectPkt("c1", 60, false, false))
+		}
+		sg3.gap(500, 900)
+		p.Peers = []PeerPlan{{Name: "p1", Ops: sg3.ops}}
+		if g.Bool(0.7) {
+			p.Cfg.SN.Rules = []Rule{{Dir: "g2c", Class: "PUBLISH", Count: 1, Act: "drop"}}
+		}
+		sg = sg3
 	}
 	p.Cfg.HorizonMs = sg.t + cfg.RetryDelayMs*int64(cfg.RetryCount+2) + 9000
 	return p
@@ -816,7 +916,7 @@ func genC25(g *Gen, idx int) *Plan {
 
 func init() {
 	Register(&Check{ID: "C06", Level: "exploration",
-		Rule:   "gateway side: a raw peer's PUBLISH QoS 1/2 or SUBSCRIBE with id m is held open by a slow broker while the broker starts PUBLISH QoS 1/2 (with and without REGISTER step) with the same id m (incl. 0xFFFF/0xFFFE, the ids the gateway itself picks for the REGISTER before a QoS 0 publish, with such publishes in flight), or the peer reuses the id of its QoS 1 PUBLISH the moment the PUBACK is in (reactive peer); client side: Publish QoS 1/2, Register or Subscribe of the real client (id 2) is held open by a delayed acknowledgement while the scripted gateway starts PUBLISH QoS 1/2 or REGISTER with id 2; both exchanges must complete; non-trivial = two exchanges with equal id overlapping in time",
+		Rule:   "gateway side: a raw peer's PUBLISH QoS 1/2 or SUBSCRIBE with id m is held open by a slow broker while the broker starts PUBLISH QoS 1/2 (with and without REGISTER step) with the same id m (incl. 0xFFFF/0xFFFE, the ids the gateway itself picks for the REGISTER before a QoS 0 publish, with such publishes in flight), or the peer reuses the id of its QoS 1 PUBLISH the moment the PUBACK is in (reactive peer), or the collision happens around a sleep (request, DISCONNECT(d), the broker's packet and then the reply queued, first copy after the wake-up lost), or the peer retransmits its QoS 1 PUBLISH before the gateway gave up on the first copy and the broker's PUBACK comes within the second exchange's time only (superseded exchange); client side: Publish QoS 1/2, Register or Subscribe of the real client (id 2) is held open by a delayed acknowledgement while the scripted gateway starts PUBLISH QoS 1/2 or REGISTER with id 2; both exchanges must complete; non-trivial = two exchanges with equal id overlapping in time",
 		Gen:    genC06, Oracle: oracleC06, Quick: 600, Thorough: 40000})
 	Register(&Check{ID: "C15", Level: "exploration",
 		Rule:   "2-4 concurrent raw peers with independent keyed workloads, credentials, registrations, malformed packets and deaths; structural oracle (one broker connection per session, no tagged payload/client id/credential of peer i on peer j's links) in every run; differential oracle in every second run (yield density 0): each peer's per-channel trace alone must equal its trace next to the others (two solo executions must agree, else the comparison is void); non-trivial = >= 2 peers",
